@@ -1,7 +1,10 @@
 package props
 
 import (
+	"fmt"
+	"go/constant"
 	"go/token"
+	"go/types"
 	"strings"
 
 	"golang.org/x/tools/go/ssa"
@@ -377,6 +380,54 @@ func runC15(c *kit.Ctx) {
 				c.Unk(dec, "declared-length-vs-input", dec.Pos(), "no comparison of a declared length found in decompressCellblocks")
 			}
 		}
+	}
+
+	// the successful end of decompression is reached only when the input is used up: the outer loop is
+	// left through its own condition (len(b) > 0 false), never by a break on something read from the stream
+	{
+		var hdrIf *ssa.If
+		kit.Instrs(dec, func(in ssa.Instruction) {
+			iff, ok := in.(*ssa.If)
+			if !ok || hdrIf != nil {
+				return
+			}
+			if cmp, ok := kit.CanonCmp(iff.Cond, true); ok && !cmp.Bytes {
+				if l := kit.LenOf(cmp.X); l != nil {
+					if k, ok := kit.ConstInt(cmp.Y); ok && k == 0 && (cmp.Op == token.GTR || cmp.Op == token.NEQ) {
+						hdrIf = iff
+					}
+				}
+			}
+		})
+		if hdrIf == nil {
+			c.Unk(dec, "ends-when-input-exhausted", dec.Pos(), "the loop 'while there is input left' of decompressCellblocks was not found")
+		} else {
+			exitB := kit.SuccOnFalse(hdrIf)
+			kit.Instrs(dec, func(in ssa.Instruction) {
+				r, ok := in.(*ssa.Return)
+				if !ok {
+					return
+				}
+				ev := returnedError(r)
+				if ev == nil || !kit.IsNilConst(kit.Root(ev)) {
+					return
+				}
+				e := kit.PathFromEntry(dec, kit.PathQuery{
+					Target:   func(x ssa.Instruction) bool { return x == ssa.Instruction(r) },
+					SkipEdge: func(from, to *ssa.BasicBlock) bool { return from == hdrIf.Block() && to == exitB },
+				})
+				c.Check(e == nil, dec, "ends-when-input-exhausted", r.Pos(), "the successful return is reached only through 'no input left'", "decompression can end successfully while input is left (a break on a value read from the stream, e.g. an empty block): a corrupted length field truncates the data silently instead of yielding an error: "+c.BlockPath(e))
+			})
+		}
+	}
+	// the chunk the client feeds the codec fits Hadoop's 256 KiB codec buffers once compressed:
+	// snappy's worst case is 32 + n + n/6 bytes for n bytes of input
+	if k, ok := p.Pkg("compression/snappy").Scope().Lookup("snappyChunkLen").(*types.Const); ok {
+		v, _ := constant.Int64Val(k.Val())
+		c.Check(v > 0 && 32+v+v/6 <= 256*1024, sEnc, "chunk-fits-hadoop-buffer", k.Pos(), fmt.Sprintf("chunk length %d: worst-case compressed size %d <= 262144", v, 32+v+v/6),
+			fmt.Sprintf("the chunk length %d compresses, in the worst case (incompressible data), to %d bytes, more than the 262144-byte buffers of Hadoop's snappy decompressor: a server rejects such a chunk", v, 32+v+v/6))
+	} else {
+		c.Unk(sEnc, "chunk-fits-hadoop-buffer", sEnc.Pos(), "constant snappyChunkLen not found")
 	}
 
 	// ---- R4 ---------------------------------------------------------------
